@@ -344,6 +344,21 @@ macro_rules! adapter {
                     }
                     format!("summary={s} has_line_info={h:?} is_valid={v:?} records={n:?} uuid={u}")
                 }
+                // sections of the shared mapping (cut at line starts): each thread also asks one of
+                // them; a section answers like a mapping made of its own bytes
+                let cuts: Vec<usize> = {
+                    let mut v = vec![0usize];
+                    v.extend(text.iter().enumerate().filter(|(_, b)| **b == b'\n').map(|(i, _)| i + 1).filter(|i| *i < text.len()));
+                    v
+                };
+                let ranges: Vec<(usize, usize)> = (0..nthreads)
+                    .map(|t| {
+                        let a = cuts[(t * 7 + 1) % cuts.len()];
+                        let b = if t % 3 == 0 { text.len() } else { cuts[(t * 13 + cuts.len() / 2) % cuts.len()].max(a) };
+                        (a, b)
+                    })
+                    .collect();
+                let section_alone: Vec<String> = ranges.iter().map(|(a, b)| ask(&pg::ProguardMapping::new(&text[*a..*b]), 0)).collect();
                 let alone = ask(&pg::ProguardMapping::new(text), 0);
                 let shared = std::thread::scope(|s| s.spawn(|| Share(pg::ProguardMapping::new(text))).join().expect("builder thread"));
                 let clones: Vec<Share<pg::ProguardMapping<'_>>> = (0..nthreads).map(|_| Share(shared.0.clone())).collect();
@@ -354,15 +369,23 @@ macro_rules! adapter {
                         .into_iter()
                         .enumerate()
                         .map(|(t, c)| {
-                            let (shared, clock, barrier) = (&shared, &clock, &barrier);
+                            let (shared, clock, barrier, ranges, section_alone, alone) = (&shared, &clock, &barrier, &ranges, &section_alone, &alone);
                             s.spawn(move || {
                                 let c = c;
                                 let mut out = vec![];
                                 barrier.wait();
                                 for r in 0..rounds {
                                     let st = clock.fetch_add(1, Ordering::SeqCst);
+                                    // odd rounds of the threads 1, 2 mod 4 ask their section first
+                                    let sec_first = (t + r) % 4 >= 2;
+                                    let (ra, rb) = ranges[t];
+                                    let sec = if t % 2 == 0 { shared.0.section(ra..rb) } else { c.0.section(ra..rb) };
+                                    let sa = if sec_first { Some(ask(&sec, t)) } else { None };
                                     let a = if t % 2 == 0 { ask(&shared.0, t + r) } else { ask(&c.0, t + r) };
+                                    let sa = sa.unwrap_or_else(|| ask(&sec, t));
                                     let en = clock.fetch_add(1, Ordering::SeqCst);
+                                    // a wrong section answer is reported in place of the whole-file answer
+                                    let a = if sa != section_alone[t] && a == *alone { format!("section {ra}..{rb}: {sa} (alone: {})", section_alone[t]) } else { a };
                                     out.push((a, st, en));
                                 }
                                 out
